@@ -25,6 +25,7 @@ from props import hist_lib as HL
 
 TRACE = "openat,write,fsync,rename,renameat,renameat2,unlink,unlinkat,mkdir,mkdirat,rmdir,close,ftruncate"
 A, B, C = "/x/a.yaml", "/x/ab.yaml", "/x/c d.yaml"
+E, F = "/x/sync.database.yaml", "/x/n_c.dat.tmp.yaml"
 
 
 def op(t, **k):
@@ -69,13 +70,20 @@ def scenarios(tier):
         S.append(("run-big", [A, B], run_ops(A, *R1, [1]) + run_ops(B, *R2, [2]), run_ops(A, *R3, [3, 4, 5, 6], big=(3, 4, 5))))
         S.append(("update-then-run", [A], run_ops(A, *R1, [1]), [op("update", d=A, req=R1[1], tag=5)] + run_ops(A, *R2, [6]) + [op("update", d=A, req=R2[1], tag=7)]))
         S.append(("rename-then-run", [A, C], run_ops(A, *R1, [1]) + run_ops(A, *R2, [2]), [op("rename", d=A, d2=C)] + run_ops(C, *R3, [3])))
+    # DAG names that contain the store's own suffixes: the compacted / temporary names must be built from the END of the file name
+    S.append(("run-dotdat", [E, F], run_ops(E, *R1, [1]) + run_ops(F, *R3, [7]), run_ops(E, *R2, [2, 3]) + run_ops(F, *R4, [8])))
     out = []
     for name, names, prior, victim in S:
         reqs = []
         for o in prior + victim:
             if o["t"] == "open" and o["req"] not in reqs:
                 reqs.append(o["req"])
-        out.append({"name": name, "names": names, "reqs": reqs, "prior": prior, "victim": victim, "after": []})
+        # after the kill a new process updates every run the scenario opened (newest first): acknowledged => shown by all queries
+        after = []
+        if name.startswith("run-") or name == "two-runs":
+            opens = [o for o in prior + victim if o["t"] == "open"]
+            after = [op("update", d=o["d"], req=o["req"], tag=90 + i) for i, o in enumerate(reversed(opens))]
+        out.append({"name": name, "names": names, "reqs": reqs, "prior": prior, "victim": victim, "after": after})
     return out
 
 
@@ -446,7 +454,22 @@ def scenario_run(ctx, tool, sc, idx, limit=None, rng=None):
             ctx.fail("correspondence", "dump after kill failed", {"scenario": sc["name"], "kill": [name, k], "err": err2[-500:]})
             continue
         obs.append({"sc": sc, "kill": [name, k], "n_acked": na, "dump": d, "loc": work, "sysc": text, "killed": rc != 0})
+        after_phase(tool, sc, scf, work, obs[-1])
     return obs, pts
+
+
+def after_phase(tool, sc, scf, work, ob):
+    """a new process records the scenario's `after` updates on the directory the kill left; what it acknowledged and what a fresh
+    process is answered afterwards go into the observation (judged by check_after)"""
+    if not sc.get("after"):
+        return
+    rc, out, err = sh([tool, "run", work, scf, "after"])
+    rc, dout, err = sh([tool, "dump", work, scf])
+    try:
+        ob["after_dump"] = json.loads(dout)
+        ob["after_acks"] = acks_ok(out)
+    except Exception:
+        pass
 
 
 def byte_prefixes(ctx, tool, sc, idx, step=1):
@@ -534,6 +557,7 @@ def compaction_prefixes(ctx, tool, sc, idx, step=1):
         rc, dout, err = sh([tool, "dump", work, scf])
         obs.append({"sc": sc, "kill": ["compaction-bytes", j], "n_acked": n, "dump": json.loads(dout), "loc": work,
                     "sysc": "temporary copy holds %d of %d bytes, original not unlinked" % (j, len(data))})
+        after_phase(tool, sc, scf, work, obs[-1])
     # published (renamed), original not yet unlinked
     restore(pre, work)
     with open(os.path.join(work, twin), "wb") as f:
@@ -541,6 +565,7 @@ def compaction_prefixes(ctx, tool, sc, idx, step=1):
     rc, dout, err = sh([tool, "dump", work, scf])
     obs.append({"sc": sc, "kill": ["compaction-published", len(data)], "n_acked": n, "dump": json.loads(dout), "loc": work,
                 "sysc": "compacted copy published, original not unlinked"})
+    after_phase(tool, sc, scf, work, obs[-1])
     return obs
 
 
@@ -618,19 +643,35 @@ def fsize_scenarios(tier):
 
 
 def check_after(o):
-    """F7c: an update acknowledged after the crash must be what find returns"""
+    """after the kill a NEW process records status updates on the surviving directory (phase `after`): an update that the store
+    acknowledged must be what ALL THREE queries show afterwards - find returns it (F7c), recent lists the run with it, latest shows it
+    when the run is the one latest answers with (the update must land in the file the listings read, whatever the kill left: torn
+    tails, the temporary copy of Close, the published compacted copy next to the original)"""
     sc = o["sc"]
     fails = []
     if "after_dump" not in o:
         return fails
+    runs, _, _ = spec_state(sc, o["n_acked"])
+    per = {p["d"]: p for p in o["after_dump"]["per"]}
     for i, a in enumerate(sc["after"]):
         if a["t"] == "update" and i in o.get("after_acks", []):
-            per = {p["d"]: p for p in o["after_dump"]["per"]}
-            ans = per[a["d"]]["finds"][sc["reqs"].index(a["req"])]
             # later updates of the same run supersede
-            later = [b for b in sc["after"][i + 1:] if b["t"] == "update" and b["req"] == a["req"]]
-            if not later and not (ans["c"] == 0 and ans.get("t") == a["tag"]):
+            later = [b for j, b in enumerate(sc["after"][i + 1:], i + 1) if b["t"] == "update" and b["req"] == a["req"] and j in o.get("after_acks", [])]
+            if later or a["d"] not in per:
+                continue
+            ans = per[a["d"]]["finds"][sc["reqs"].index(a["req"])]
+            if not (ans["c"] == 0 and ans.get("t") == a["tag"]):
                 fails.append(("P2", "update %d of run %s acknowledged after the crash is not returned: %s" % (a["tag"], a["req"], ans), "update-after-torn-tail"))
+            rec = per[a["d"]]["rec5"]
+            mine = [x for x in rec if x.get("r") == a["req"]]
+            if len(mine) != 1 or mine[0].get("t") != a["tag"]:
+                fails.append(("P4", "update %d of run %s acknowledged after the crash is not what recent 5 of %s lists: %s"
+                              % (a["tag"], a["req"], a["d"], [(x.get("r"), x.get("t")) for x in rec]), "other"))
+            lat = per[a["d"]]["latest"]
+            stamps = {r.req: r.stamp for r in runs if r.d == a["d"]}
+            newest = stamps and a["req"] in stamps and all(stamps[a["req"]] >= st for st in stamps.values())
+            if lat["c"] == 2 or (lat.get("r") == a["req"] and lat.get("t") != a["tag"]) or (newest and not (lat["c"] == 0 and lat.get("r") == a["req"])):
+                fails.append(("P3", "update %d of run %s acknowledged after the crash is not what latest of %s shows: %s" % (a["tag"], a["req"], a["d"], lat), "other"))
     return fails
 
 
@@ -732,10 +773,12 @@ def run(ctx, replay_cases=None):
             tb += o
         # the compaction window of Close, byte by byte (twin empty / torn / complete, original still there)
         c1 = {"name": "compaction-window", "names": [A], "reqs": [R1[1], R2[1]], "prior": run_ops(A, *R1, [1]),
-              "victim": [op("open", d=A, stamp=R2[0], req=R2[1]), op("write", tag=2), op("write", tag=3), op("close")], "after": []}
+              "victim": [op("open", d=A, stamp=R2[0], req=R2[1]), op("write", tag=2), op("write", tag=3), op("close")],
+              "after": [op("update", d=A, req=R2[1], tag=91), op("update", d=A, req=R1[1], tag=92)]}
         c2 = {"name": "compaction-window-3runs", "names": [A, B], "reqs": [R1[1], R2[1], R3[1], R4[1]],
               "prior": run_ops(A, *R1, [1]) + run_ops(A, *R2, [2]) + run_ops(B, *R4, [9]),
-              "victim": [op("open", d=A, stamp=R3[0], req=R3[1]), op("write", tag=3, big=(ctx.tier != "quick")), op("close")], "after": []}
+              "victim": [op("open", d=A, stamp=R3[0], req=R3[1]), op("write", tag=3, big=(ctx.tier != "quick")), op("close")],
+              "after": [op("update", d=A, req=R3[1], tag=91), op("update", d=A, req=R1[1], tag=92), op("update", d=B, req=R4[1], tag=93)]}
         for i, sc in enumerate((c1, c2)):
             o = compaction_prefixes(ctx, tool, sc, i, 29 if ctx.tier == "quick" else (1 if i == 0 else 7))
             ctx.cov["kill_points"][sc["name"]] = {"compaction_byte_prefixes": len(o)}
